@@ -12,7 +12,8 @@ Four searches: (0a) result ownership (props_ext/c10_own.py: every array returned
 blocks / aligned and unaligned slices of plain and PERSISTED collections is overwritten in place; the user's
 array, the persisted data and later computes must not notice), (0b) lock discipline (props_ext/c10_locks.py: a shared-cursor
 source with a reentrancy counter behind from_array(lock=True | lock object) read through several pushed-down views in one
-graph, and store into one shared-cursor target), (1) the operation catalogue (harness/props_ext/c10_catalog.py executor + checks, c10_ops.py ~180 public
+graph, and store into one shared-cursor target), (0c) build-time vs run-time configuration (props_ext/c10_buildtime.py: lazy store /
+from_array(lock) / map_blocks(lock) objects built under one dask.config scheduler setting and executed under another), (1) the operation catalogue (harness/props_ext/c10_catalog.py executor + checks, c10_ops.py ~180 public
 operations with their kwargs, c10_cases.py stratified sweeps: order statistics with overwrite_input/keepdims/method,
 moving-window kernels over first/last-chunk-of-length-1 chunkings and every min_count class, reductions, scans,
 out=/where=, setitem, store, contractions, fft, ...), (2) seeded random array programs + in-place-prone templates.
@@ -26,7 +27,7 @@ import time
 import numpy as np
 
 from harness import graphs, programs
-from harness.props_ext import c10_cases, c10_catalog, c10_locks, c10_own
+from harness.props_ext import c10_buildtime, c10_cases, c10_catalog, c10_locks, c10_own
 
 
 def same(a, b):
@@ -359,7 +360,17 @@ def run(ctx, replay=None):
         "(c10_locks: shared-cursor source behind from_array(lock=True | threading.Lock | SerializableLock | recording lock) x 13 families "
         "of 2-3 pushed-down views in one graph (slice pairs, slice+rechunk, strided, columns, slice of slice, blocks, transposed, int / "
         "list rows, joint roots) x from_array kwargs; static: exactly one lock object in the graph; recording lock: every read holds "
-        "it; 4 threads: reentrancy counter with a bounded rendezvous wait; values vs NumPy; store into one shared-cursor target)"
+        "it; 4 threads: reentrancy counter with a bounded rendezvous wait; values vs NumPy; store into one shared-cursor target).  PLUS build-time "
+        "vs run-time configuration (c10_buildtime): a lazy object (store(compute=False) single / several pairs into one target by regions / "
+        "distinct targets / return_stored / to_delayed blocks, the load-stored arrays of an eager store(return_stored=True), "
+        "from_array(lock=...) views, map_blocks carrying a lock object, from_array(lock) -> store pipe) x lock {default, True, threading, "
+        "SerializableLock, recording} BUILT under dask.config A in {nothing, scheduler = sync / synchronous / single-threaded / threads / "
+        "threading / get_sync callable / threaded get callable, num_workers=1, sync+num_workers=1, pool of 1, threads+8 workers} and RUN "
+        "under B in {threads 4 kwargs, threading 6 kwargs, threads 8 config, pool 4 config, pool 5 kwarg, threaded get callable 4, the "
+        "default, sync kwarg / config, single-threaded} by dask.compute / .compute() per root / persist: store with the default lock over "
+        "ALL sync-like A x ALL threaded B (other A: two B each, rotating), every other family once per run with rotating A; targets / "
+        "sources have one shared cursor, a read-modify-write write log, a reentrancy counter with bounded rendezvous and (recording lock) "
+        "a holder check; static lock walk of the graph decides how long the rendezvous waits; an observed failure is re-run 3 times"
     )
     ctx.assumptions = [
         "C10_topo_eval_unique assumes every task is a pure function of its dependency values; that assumption is MONITORED "
@@ -372,8 +383,8 @@ def run(ctx, replay=None):
     ]
     if replay is not None:
         case = replay["case"] if "case" in replay else replay
-        if case.get("kind") in ("cat", "lock", "own"):
-            mod = {"cat": c10_catalog, "lock": c10_locks, "own": c10_own}[case["kind"]]
+        if case.get("kind") in ("cat", "lock", "own", "bt"):
+            mod = {"cat": c10_catalog, "lock": c10_locks, "own": c10_own, "bt": c10_buildtime}[case["kind"]]
             for sig, detail in mod.run_case(ctx, case) or []:
                 ctx.fail(sig, case, detail)
             return
@@ -386,6 +397,7 @@ def run(ctx, replay=None):
     for _ in range(ctx.scale(1, 6)):
         c10_own.run(ctx, ctx.scale(3, 10))
         c10_locks.run(ctx, ctx.scale(6, 12))
+        c10_buildtime.run(ctx, ctx.scale(12, 25))  # build-time vs run-time configuration of lazy store / from_array / map_blocks objects
     ctx.notes["own+lock.seconds"] = round(time.time() - t_run, 1)
     t_run = time.time()  # the budgets below are those of the catalogue / program search alone
     catalogue(ctx, t_run)
